@@ -91,7 +91,13 @@ func Hash(parts ...string) uint64 {
 // are executed once; per-shard distinct counts therefore add up exactly.
 func (c *Ctx) Mine(scope string, idx int64, key uint64) bool {
 	if c.Replay {
-		return scope == c.ReplayScope && idx == c.ReplayIndex
+		if scope == c.ReplayScope && idx == c.ReplayIndex {
+			if OnBegin != nil {
+				OnBegin()
+			}
+			return true
+		}
+		return false
 	}
 	if int(key%uint64(c.NShards)) != c.Shard {
 		return false
@@ -107,7 +113,14 @@ func (c *Ctx) Mine(scope string, idx int64, key uint64) bool {
 
 // Begin records the case about to be executed in the in-flight marker, so that a worker that
 // dies (out of memory, stack overflow, watchdog) still names the case that killed it.
+// OnBegin, when set, runs at the start of every case (the pools-only overlay empties the
+// deterministic pools here).
+var OnBegin func()
+
 func (c *Ctx) Begin(scope string, idx int64) {
+	if OnBegin != nil {
+		OnBegin()
+	}
 	if c.marker == nil {
 		return
 	}
@@ -145,7 +158,13 @@ func DecodeMarker(b []byte) (string, int64) {
 // MineIdx shards by index (for scopes whose cases are distinct by construction).
 func (c *Ctx) MineIdx(scope string, idx int64) bool {
 	if c.Replay {
-		return scope == c.ReplayScope && idx == c.ReplayIndex
+		if scope == c.ReplayScope && idx == c.ReplayIndex {
+			if OnBegin != nil {
+				OnBegin()
+			}
+			return true
+		}
+		return false
 	}
 	if int(idx%int64(c.NShards)) != c.Shard {
 		return false
